@@ -47,6 +47,9 @@ def run(ctx):
     n_ds = 24 if quick else 200
     fixed = [('cf1d', dict(ny=3, nx=5)), ('cf2d', dict(ny=4, nx=3, holes='random', bounds=False)),
              ('cf2d', dict(ny=3, nx=4, holes='interior', bounds=True, invalid=True)),
+             ('cf2d', dict(ny=3, nx=4, holes='none', bounds=True, bad_bounds=rng.choice(['xy_nv', 'nv_xy']))),
+             ('cf2d', dict(ny=3, nx=3, holes='corner', bounds=True, bad_bounds=rng.choice(['xy_nv', 'nv_yx', 'five', 'lat_only_xy_nv']))),
+             ('cf1d', dict(ny=3, nx=4, bounds=True, bad_bounds=rng.choice(['transposed', 'three']))),
              ('shoc_simple', dict(ny=3, nx=3, holes='corner')), ('shoc_standard', dict(nj=3, ni=4, holes='random')),
              ('shoc_standard', dict(nj=3, ni=3, holes='edge', invalid=True)),
              ('ugrid', dict(w=3, h=3, face_coords=True)), ('ugrid', dict(w=3, h=2, face_coords=False, invalid=True))]
